@@ -12,7 +12,7 @@ from rv.harness import mod, monitored_call, present
 import random
 
 LEVEL = "exploration"
-RULE = ("ilp on n <= 6 items (values <= 200), 1-4 bins, five objectives; option classes: copies (one number 0/1/2, a per-item list, or a per-item dict keyed by item index written in shuffled insertion order), constraints smallest==c / largest<=c / smallest>=c with c below, at and "
+RULE = ("ilp on n <= 6 items (values <= 200), 1-4 bins, five objectives; option classes: copies (one number 0/1/2, a per-item list, or a per-item dict keyed by item index written in shuffled insertion order), constraints smallest==c / largest<=c / smallest>=c (one, or two in the same list) with c below, at and "
         "above feasibility (infeasible ones must raise ValueError), weights (uniform and non-uniform from {1,2,3,5,10,1/2}), plain; non-trivial = constraint binding (constrained optimum differs from the "
         "unconstrained one) or infeasible, or copies not all 1, or weights not all equal; distinct on the full call")
 ASSUMPTIONS = ["values <= 200 (the property's solver envelope); a mismatch that disappears with CBC preprocessing off is inconclusive(solver)",
@@ -29,6 +29,10 @@ def plan(tier, seed):
 
 
 def constraint_fn(c):
+    if c and isinstance(c[0], (list, tuple)):
+        # several constraints returned in one list (all of them must be honoured)
+        fns = [constraint_fn(x) for x in c]
+        return lambda sums: [con for f in fns for con in f(sums)]
     kind, val = c
     if kind == "min_eq":
         return lambda sums: [sums[0] == val]
@@ -40,6 +44,8 @@ def constraint_fn(c):
 
 
 def constraint_ok(c, sorted_sums):
+    if c and isinstance(c[0], (list, tuple)):
+        return all(constraint_ok(x, sorted_sums) for x in c)
     kind, val = c
     return {"min_eq": sorted_sums[0] == val, "max_le": sorted_sums[-1] <= val, "min_ge": sorted_sums[0] >= val}[kind]
 
@@ -216,7 +222,13 @@ def draw(rng):
         pivot = ref[0] if kind != "max_le" else ref[-1]
         c = max(0, pivot + rng.choice([-1, 0, 0, 0, 1, rng.randint(-5, 5), 1000 if rng.random() < 0.1 else 0]))
         case["constraint"] = [kind, c]
-        feas = [v for v in vectors if constraint_ok((kind, c), v)]
+        if rng.random() < 0.35:
+            # a second constraint in the same list, taken from a (possibly different) reachable vector so that the pair is often jointly feasible and binding
+            kind2 = rng.choice(["min_eq", "max_le", "min_ge"])
+            ref2 = rng.choice(vectors)
+            c2 = max(0, (ref2[0] if kind2 != "max_le" else ref2[-1]) + rng.choice([-1, 0, 0, 1]))
+            case["constraint"] = [[kind, c], [kind2, c2]] if rng.random() < 0.5 else [[kind2, c2], [kind, c]]
+        feas = [v for v in vectors if constraint_ok(case["constraint"], v)]
         case["binding"] = (not feas) or min(O.objval(name, v, kp) for v in feas) != unc
     if cls == "weights_uniform":
         case["weights"] = [rng.choice(W_POOL)] * k
